@@ -52,6 +52,33 @@ def replay_hist(job):
     K = rc['K']
     db = None
     kept = []          # (conn, bound, expected row per oid) checked again at the end
+    mirror = {'st': None, 'upto': None}
+
+    def sync_mirror():
+        """second database of a multi-database: a FileStorage holding a transaction-for-transaction copy (same tids)"""
+        from ZODB.FileStorage import FileStorage
+        from ZODB.utils import p64 as _p, u64 as _u
+        if mirror['st'] is None:
+            mirror['st'] = FileStorage(os.path.join(workdir, 'mirror.fs'))
+        st2 = mirror['st']
+        start = None if mirror['upto'] is None else _p(_u(mirror['upto']) + 1)
+        for txn in rp.st.iterator(start):
+            st2.tpc_begin(txn, txn.tid, txn.status)
+            for r in txn:
+                st2.restore(r.oid, r.tid, r.data, '', r.data_txn, txn)
+            st2.tpc_vote(txn)
+            st2.tpc_finish(txn)
+            mirror['upto'] = txn.tid
+
+    def check_mirror(conn, obs, b, form, where):
+        c2 = conn.get_connection('mirror')
+        out['mirror'] = out.get('mirror', 0) + 1
+        if c2.before != conn.before:
+            out['mismatch'].append({'what': 'secondary-connection-bound', 'form': form, 'when': where, 'bound': b,
+                                    'spec': repr(conn.before), 'impl': repr(c2.before)})
+            return None
+        check_conn(c2, obs, b, form + '/secondary', where)
+        return c2
 
     def expect(obs, o, b):
         return sd.norm(obs)['lb'][o][b]
@@ -89,8 +116,11 @@ def replay_hist(job):
             hist = sd.norm(step['state']['hist'])
             tids = [t['tid'] for t in hist]
             last = tids[-1]
+            sync_mirror()
             if db is None:
-                db = ZODB.DB(rp.st)
+                dbs = {}
+                db = ZODB.DB(rp.st, databases=dbs, database_name='main')
+                mirror['db'] = ZODB.DB(mirror['st'], databases=dbs, database_name='mirror')
             bounds = sorted(b for b in sd.norm(obs)['lb'][0] if 1 <= b <= last + 1)
             for b in rng.sample(bounds, min(len(bounds), 5)):
                 forms = [('before-raw', dict(before=rp.tids.real(b)))]
@@ -120,6 +150,8 @@ def replay_hist(job):
                     out['opens'] += 1
                     out['forms'][form] = out['forms'].get(form, 0) + 1
                     check_conn(conn, obs, b, form, 'at-open')
+                    if rng.random() < 0.5:
+                        check_mirror(conn, obs, b, form, 'at-open')
                     if rng.random() < 0.4:
                         conn.cacheMinimize()
                         kept.append((conn, tm, b, form, obs))
@@ -142,6 +174,19 @@ def replay_hist(job):
         final_obs = beh[-1]['state']['obs'] if not out['mismatch'] else None
         for conn, tm, b, form, obs in kept:
             check_conn(conn, obs, b, form, 'at-end')
+            c2 = check_mirror(conn, obs, b, form, 'at-end')
+            if c2 is not None and rng.random() < 0.5:
+                # a write through the secondary connection of a historical connection is refused as well
+                try:
+                    ob = c2.get(p64(0))
+                    ob.v = ['changed']
+                    tm.commit()
+                    out['mismatch'].append({'what': 'write-accepted', 'form': form + '/secondary', 'bound': b})
+                except ReadOnlyHistoryError:
+                    out['refused_write'] += 1
+                    tm.abort()
+                except (POSKeyError, KeyError):
+                    tm.abort()
             # any attempt to commit through it fails ... (done at the end: a refused commit may consume a tid)
             try:
                 if os.environ.get('ZV_DEBUG'):
@@ -180,6 +225,8 @@ def replay_hist(job):
         try:
             if db is not None:
                 db.close()
+            if mirror.get('db') is not None:
+                mirror['db'].close()
         except Exception:
             pass
         try:
@@ -226,6 +273,7 @@ def run(ctx):
         'historical_opens': opens, 'reads_compared': reads, 'forms': forms,
         'future_points_refused': sum(r['refused_future'] for r in res),
         'writes_refused': sum(r['refused_write'] for r in res),
+        'secondary_connections_checked': sum(r.get('mirror', 0) for r in res),
         'rule': 'directed histories evaluated by TLC (ZScript over ZStorage: objects later changed, deleted, un-created by undo, '
                 'created later; stalled clock so that transactions share a second) are replayed on a FileStorage; after every '
                 'commit historical connections are opened at sampled bounds of the loadBefore table in the forms before=tid, '
@@ -233,7 +281,9 @@ def run(ctx):
                 'read through the connection and compared with the table entry TLC printed (state or absent); some connections '
                 'stay open (cache minimised) while the behaviour continues and are read again at the end; writes through them '
                 'must raise ReadOnlyHistoryError and leave the commit lock free; points later than the newest transaction must '
-                'be refused; TLC checks ZHistorical (HistoricalExact, NeverFromTheFuture, BoundNotInFuture, WritesRefused); '
+                'be refused; the database is one of a multi-database whose second member holds a transaction-for-transaction copy: '
+                'connections obtained with get_connection() from a historical connection must carry the same bound, read the same '
+                'past state and refuse writes; TLC checks ZHistorical (HistoricalExact, NeverFromTheFuture, BoundNotInFuture, WritesRefused); '
                 'non-trivial = behaviour with >= 5 historical opens and a connection kept open across later commits',
         'samples': [res[0]['sig'][:30]] if res else [],
         'exhaustive': False,
